@@ -349,6 +349,7 @@ class CWorldMonitor:
         self.blocked = False
         self.rpcs = {}     # sid -> dict
         self.table = set()
+        self.prev_table = None
 
     def feed(self, op, obs_line):
         v = []
@@ -424,7 +425,11 @@ class CWorldMonitor:
                 r["finished"] = True
             self.table.clear()
         # ---- raw server frames: what the peer has said so far ----
-        if op.startswith("c.frame") and sid in self.rpcs and not self.rpcs[sid]["finished"]:
+        live_before = getattr(self, "prev_table", None)
+        if o["T"] is not None:
+            self.prev_table = set(o["T"])
+        if op.startswith("c.frame") and sid in self.rpcs and not self.rpcs[sid]["finished"] and \
+                (live_before is None or sid in live_before):
             r = self.rpcs[sid]
             if kind == "hdr" and not r["hdr_seen"]:
                 r["hdr_seen"] = True
@@ -845,4 +850,45 @@ class NullMonitor:
             v.append(("C12", "wrong-channel-reported", f"WithTunnelChannel reported another tunnel than the one that served: {line[:160]}"))
         if "!BAD-CONTEXT" in line:
             v.append(("C17", "handler-context-wrong", f"handler context does not carry the tunnel's opening metadata / request metadata, or a returned copy was shared: {line[:200]}"))
+        return v
+
+
+class MetaMonitor:
+    """C02 on the public API: status (code, message, details), headers, trailers and request metadata are delivered exactly."""
+
+    def __init__(self):
+        self.dead = False
+
+    def feed(self, op, line):
+        v = []
+        if op.startswith("meta.init"):
+            self.dead = False
+        if not op.startswith("meta.rpc") or self.dead:
+            return v
+        k = kvs(op)
+        strs = [] if k["strs"] == "-" else k["strs"].split(",")
+        valid = True
+        for h in strs:
+            if h == "-":
+                continue
+            try:
+                bytes.fromhex(h).decode("utf-8")
+            except UnicodeDecodeError:
+                valid = False
+        if line.startswith("PANIC"):
+            key = "panic-credentials-without-outgoing-metadata" if k.get("creds") == "1" and k.get("outgoing") == "0" else "panic"
+            v.append(("C02", key, f"caller panicked: {line} on `{op[:120]}`"))
+            v.append(("C15", key, f"caller panicked: {line}"))
+            return v
+        f = dict(p.split("=") for p in line.split() if "=" in p)
+        if f.get("alive") == "0":
+            self.dead = True
+            key = "non-utf8-string-kills-tunnel" if not valid else "tunnel-died"
+            v.append(("C02", key, f"the tunnel is unusable after `{op[:140]}`: {line}"))
+            v.append(("C03", key, f"one RPC's metadata/status ended the whole tunnel: `{op[:140]}`: {line}"))
+            return v
+        for name, what in (("st", "status"), ("hdr", "headers"), ("tlr", "trailers"), ("req", "request metadata")):
+            if f.get(name) != "1":
+                key = f"{what.replace(' ', '-')}-not-exact" + ("" if valid else "-non-utf8")
+                v.append(("C02", key, f"{what} not delivered exactly on `{op[:140]}`: {line}"))
         return v
